@@ -10,6 +10,7 @@ package main
 import (
 	"bytes"
 	"encoding/hex"
+	"encoding/json"
 	"flag"
 	"fmt"
 	"math"
@@ -725,7 +726,8 @@ func cmdValues(args []string) {
 			}
 		}
 		if emit && err == nil {
-			hx.Emit(M{"kind": "value", "v": describe(v), "repr": hx_(text)})
+			st, _ := strOf(v)
+			hx.Emit(M{"kind": "value", "v": describe(v), "repr": hx_(text), "str": hx_(st)})
 		}
 	}
 	// pools first
@@ -856,6 +858,94 @@ func cmdChild(args []string) {
 	}
 }
 
+// undescribe rebuilds a value from the JSON tree printed by describe.
+func undescribe(x any) starlark.Value {
+	m := x.(map[string]any)
+	unhex := func(k string) string { b, _ := hex.DecodeString(m[k].(string)); return string(b) }
+	switch m["t"] {
+	case "none":
+		return starlark.None
+	case "bool":
+		return starlark.Bool(m["b"].(bool))
+	case "int":
+		z, _ := new(big.Int).SetString(m["z"].(string), 10)
+		return starlark.MakeBigInt(z)
+	case "float":
+		u, _ := strconv.ParseUint(m["bits"].(string), 10, 64)
+		return starlark.Float(math.Float64frombits(u))
+	case "str":
+		return starlark.String(unhex("s"))
+	case "bytes":
+		return starlark.Bytes(unhex("s"))
+	case "list", "tuple":
+		var xs []starlark.Value
+		for _, e := range m["xs"].([]any) {
+			xs = append(xs, undescribe(e))
+		}
+		if m["t"] == "list" {
+			return starlark.NewList(xs)
+		}
+		return starlark.Tuple(xs)
+	case "dict":
+		d := starlark.NewDict(0)
+		for _, e := range m["xs"].([]any) {
+			kv := e.([]any)
+			d.SetKey(undescribe(kv[0]), undescribe(kv[1]))
+		}
+		return d
+	}
+	return starlark.None
+}
+
+// cmdReplay re-runs one recorded input (the "replay" object of a finding, on stdin).
+func cmdReplay() {
+	var m map[string]any
+	if err := json.NewDecoder(os.Stdin).Decode(&m); err != nil {
+		fmt.Fprintln(os.Stderr, err)
+		os.Exit(2)
+	}
+	unhex := func(k string) string { b, _ := hex.DecodeString(m[k].(string)); return string(b) }
+	switch m["kind"] {
+	case "quote", "rt_fail":
+		s, b := unhex("s"), m["b"].(bool)
+		hx.Emit(M{"kind": "quote", "s": hx_(s), "b": b, "q": hx_(syntax.Quote(s, b)), "print": printable(s), "class": classOfString(s)})
+		if w := roundTrip(s, b); w != "" {
+			hx.Emit(M{"kind": "rt_fail", "sub": "replay", "s": hx_(s), "b": b, "what": w, "class": classOfString(s)})
+		}
+	case "scan":
+		src := unhex("src")
+		if o, isStr := obsScan(src); isStr {
+			hx.Emit(M{"kind": "scan", "src": hx_(src), "obs": o})
+		}
+	case "unquote":
+		hx.Emit(M{"kind": "unquote", "lit": m["lit"], "obs": obsUnquote(unhex("lit"))})
+	case "value", "value_fail":
+		v := undescribe(m["v"])
+		text, err := reprOf(v)
+		what := ""
+		if err != nil {
+			what = "repr failed: " + err.Error()
+		} else if v2, err := starlark.Eval(&starlark.Thread{Name: "c15"}, "repr", text, nil); err != nil {
+			what = "Eval(repr(v)) failed: " + err.Error()
+		} else if !deepSame(v, v2) {
+			what = "Eval(repr(v)) is a different value or type"
+		}
+		if what != "" {
+			hx.Emit(M{"kind": "value_fail", "class": typeClass(v), "v": describe(v), "repr": hx_(text), "what": what})
+		}
+		if err == nil {
+			st, _ := strOf(v)
+			hx.Emit(M{"kind": "value", "v": describe(v), "repr": hx_(text), "str": hx_(st)})
+		}
+	case "cycle":
+		what := m["what"].(string)
+		out, status := runChild(10*time.Second, "cycle", what)
+		hx.Emit(M{"kind": "cycle", "what": what, "status": status, "out": out})
+	case "isprint":
+		cmdIsPrint([]string{"-full"})
+	}
+}
+
 func main() {
 	if len(os.Args) < 2 {
 		fmt.Fprintln(os.Stderr, "usage: c15 strings|isprint|values|child ...")
@@ -871,6 +961,8 @@ func main() {
 		cmdValues(os.Args[2:])
 	case "child":
 		cmdChild(os.Args[2:])
+	case "replay":
+		cmdReplay()
 	default:
 		os.Exit(2)
 	}
